@@ -332,3 +332,36 @@ func VerifHarness_C06_bigrecord() {
 	vfAssert(len(rec) == 1 && rec[0].Status.Params == "w2", "C06.bigrecord/recent-history-returns-the-last-status")
 	vfReach("end")
 }
+
+// C06.editopen: a status recorded by another process (a manual edit) while the run's own
+// writer is still open is not lost when the run is closed (compaction) afterwards.
+func VerifHarness_C06_editopen() {
+	db, loc := vfNewDB()
+	if vfNative() {
+		defer os.RemoveAll(loc)
+	}
+	dagFile := "/dags/" + vfDagNames[vfChoice("name", 3)] + ".yaml"
+	id := "req-open-1"
+	vfAssume(db.Open(dagFile, vfBase, id) == nil)
+	vfAssume(db.Write(vfStatus(id, scheduler.StatusRunning, "w1")) == nil)
+	last := "w1"
+	editor, _ := vfNewDBAt(loc)
+	if editor.Update(dagFile, id, vfStatus(id, scheduler.StatusError, "edited")) == nil {
+		last = "edited"
+	}
+	if vfChoice("writeAfterEdit", 2) == 1 {
+		vfAssume(db.Write(vfStatus(id, scheduler.StatusSuccess, "w2")) == nil)
+		last = "w2"
+	}
+	if vfChoice("close", 2) == 1 {
+		vfAssume(db.Close() == nil)
+	}
+	fresh, _ := vfNewDBAt(loc)
+	sf, err := fresh.FindByRequestID(dagFile, id)
+	vfAssert(err == nil && sf != nil && sf.Status.Params == last, "C06.editopen/lookup-returns-the-last-status-recorded")
+	st, err := fresh.ReadStatusToday(dagFile)
+	vfAssert(err == nil && st != nil && st.Params == last, "C06.editopen/latest-status-is-the-last-one-recorded")
+	rec := fresh.ReadStatusRecent(dagFile, 2)
+	vfAssert(len(rec) == 1 && rec[0].Status.Params == last, "C06.editopen/recent-history-returns-the-last-status")
+	vfReach("end")
+}
